@@ -710,6 +710,225 @@ def comp_matches(comp, mode, opcls, selfn, valp):
 
 
 SIDE_OF_NAME = (("in_degree", "in"), ("out_degree", "out"), ("tail", "in"), ("head", "out"))
+_ENTRY_ATTRS = ("_node", "_edge", "_id_dict", "_bi_id_dict")
+_UNKNOWN = object()
+
+
+def _const_of(e, env):
+    """Value of an expression if it is a literal or a parameter bound to a literal in env, else _UNKNOWN."""
+    if isinstance(e, ast.Constant):
+        return e.value
+    if isinstance(e, ast.Name) and e.id in env:
+        return env[e.id]
+    return _UNKNOWN
+
+
+def _test_value(t, env):
+    """True / False when the branch condition is decided by the constants bound in env, else None."""
+    if isinstance(t, ast.UnaryOp) and isinstance(t.op, ast.Not):
+        v = _test_value(t.operand, env)
+        return None if v is None else (not v)
+    if isinstance(t, ast.BoolOp):
+        vs = [_test_value(v, env) for v in t.values]
+        if isinstance(t.op, ast.And):
+            if any(v is False for v in vs):
+                return False
+            return True if all(v is True for v in vs) else None
+        if any(v is True for v in vs):
+            return True
+        return False if all(v is False for v in vs) else None
+    if isinstance(t, ast.Compare) and len(t.ops) == 1:
+        l, r = _const_of(t.left, env), t.comparators[0]
+        op = t.ops[0]
+        if isinstance(op, (ast.In, ast.NotIn)) and isinstance(r, (ast.Tuple, ast.List, ast.Set)) and l is not _UNKNOWN:
+            vals = [_const_of(x, env) for x in r.elts]
+            if any(v is _UNKNOWN for v in vals):
+                return None
+            return (l in vals) if isinstance(op, ast.In) else (l not in vals)
+        rv = _const_of(r, env)
+        if l is _UNKNOWN or rv is _UNKNOWN:
+            return None
+        if isinstance(op, (ast.Eq, ast.Is)):
+            return l == rv if isinstance(op, ast.Eq) else ((l is rv) or (l == rv and type(l) is type(rv)))
+        if isinstance(op, (ast.NotEq, ast.IsNot)):
+            return l != rv if isinstance(op, ast.NotEq) else not ((l is rv) or (l == rv and type(l) is type(rv)))
+        return None
+    if isinstance(t, ast.Name) and t.id in env:
+        return bool(env[t.id])
+    return None
+
+
+def _terminates(body):
+    return bool(body) and isinstance(body[-1], (ast.Return, ast.Raise, ast.Continue, ast.Break))
+
+
+class _SideReads:
+    """Side accesses (`X["in"]`, `X["out"]`, `X[side]` with side a parameter bound to a literal by the caller) of a
+    function and of the helpers it hands a side literal (or that are private), with branches decided by the bound
+    literals pruned.  Each read is (side value | _UNKNOWN, subscript node, neutral)."""
+
+    def __init__(self, repo):
+        self.repo = repo
+        self.reads = []
+        self.unresolved = []
+        self.analysed = []
+
+    def run(self, fn, env, depth=0, stack=()):
+        self.analysed.append(fn.fq)
+        par = {}
+        for p in ast.walk(fn.node):
+            for ch in ast.iter_child_nodes(p):
+                par[ch] = p
+        # local names bound once to an entry of the incidence tables (members = net._edge[e])
+        entry_alias = {}
+        counts = {}
+        for st in own_statements(fn.node):
+            for t in (st.targets if isinstance(st, ast.Assign) else []):
+                for nm in ast.walk(t):
+                    if isinstance(nm, ast.Name):
+                        counts[nm.id] = counts.get(nm.id, 0) + 1
+            if isinstance(st, ast.Assign) and len(st.targets) == 1 and isinstance(st.targets[0], ast.Name):
+                v = st.value
+                if isinstance(v, ast.Subscript) and any(isinstance(y, ast.Attribute) and y.attr in _ENTRY_ATTRS for y in ast.walk(v.value)):
+                    entry_alias[st.targets[0].id] = v
+        entry_alias = {k: v for k, v in entry_alias.items() if counts.get(k) == 1}
+        self._block(fn, fn.node.body, dict(env), par, entry_alias, depth, stack + (fn.fq,))
+
+    def _block(self, fn, body, env, par, alias, depth, stack):
+        for st in body:
+            if isinstance(st, (ast.FunctionDef, ast.AsyncFunctionDef, ast.ClassDef)):
+                continue
+            if isinstance(st, ast.If):
+                tv = _test_value(st.test, env)
+                if tv is None:
+                    self._expr(fn, st.test, env, par, alias, depth, stack)
+                    self._block(fn, st.body, env, par, alias, depth, stack)
+                    self._block(fn, st.orelse, env, par, alias, depth, stack)
+                    continue
+                live = st.body if tv else st.orelse
+                self._block(fn, live, env, par, alias, depth, stack)
+                if _terminates(live):
+                    return
+                continue
+            if isinstance(st, (ast.For, ast.While, ast.With, ast.Try)):
+                for f in ("iter", "test"):
+                    if hasattr(st, f):
+                        self._expr(fn, getattr(st, f), env, par, alias, depth, stack)
+                if isinstance(st, ast.With):
+                    for it in st.items:
+                        self._expr(fn, it.context_expr, env, par, alias, depth, stack)
+                for f in ("body", "orelse", "finalbody"):
+                    self._block(fn, getattr(st, f, []) or [], env, par, alias, depth, stack)
+                for h in getattr(st, "handlers", []):
+                    self._block(fn, h.body, env, par, alias, depth, stack)
+                continue
+            # a parameter rebound in the body is no longer the caller's literal
+            if isinstance(st, (ast.Assign, ast.AugAssign, ast.AnnAssign)):
+                tg = st.targets if isinstance(st, ast.Assign) else [st.target]
+                self._expr(fn, st, env, par, alias, depth, stack)
+                for t in tg:
+                    for nm in ast.walk(t):
+                        if isinstance(nm, ast.Name) and nm.id in env:
+                            v = _const_of(st.value, env) if isinstance(st, ast.Assign) and st.value is not None else _UNKNOWN
+                            if v is _UNKNOWN:
+                                env.pop(nm.id)
+                            else:
+                                env[nm.id] = v
+                continue
+            self._expr(fn, st, env, par, alias, depth, stack)
+            if isinstance(st, (ast.Return, ast.Raise)):
+                return
+
+    def _is_entry(self, e, alias):
+        if any(isinstance(y, ast.Attribute) and y.attr in _ENTRY_ATTRS for y in ast.walk(e)):
+            return True
+        return isinstance(e, ast.Name) and e.id in alias
+
+    def _entry_key(self, e, alias):
+        if isinstance(e, ast.Name) and e.id in alias:
+            return ast.dump(alias[e.id])
+        return ast.dump(e)
+
+    def _expr(self, fn, root, env, par, alias, depth, stack):
+        skip = set()
+        for x in ast.walk(root):
+            if x in skip:
+                continue
+            if isinstance(x, ast.IfExp):
+                tv = _test_value(x.test, env)
+                if tv is not None:
+                    dead = x.orelse if tv else x.body
+                    skip.update(ast.walk(dead))
+                continue
+            if isinstance(x, ast.Subscript) and self._is_entry(x.value, alias):
+                sv = _const_of(x.slice, env)
+                if sv in ("in", "out"):
+                    self.reads.append((sv, x, fn, self._neutral(x, sv, env, par, alias)))
+                elif sv is _UNKNOWN and isinstance(x.slice, ast.Name) and x.slice.id in fn.all_params:
+                    self.unresolved.append((x, fn))
+                continue
+            if isinstance(x, ast.Call):
+                self._call(fn, x, env, depth, stack)
+
+    def _neutral(self, x, sv, env, par, alias):
+        """both sides of the same entry combined in one call (X["in"].union(X["out"]))"""
+        p = x
+        for _ in range(4):
+            p = par.get(p)
+            if p is None:
+                return False
+            if not isinstance(p, ast.Call):
+                continue
+            for y in ast.walk(p):
+                if y is x or not isinstance(y, ast.Subscript) or not self._is_entry(y.value, alias):
+                    continue
+                ov = _const_of(y.slice, env)
+                if ov in ("in", "out") and ov != sv and self._entry_key(y.value, alias) == self._entry_key(x.value, alias):
+                    return True
+        return False
+
+    def _call(self, fn, call, env, depth, stack):
+        if depth >= 4:
+            return
+        f = call.func
+        tgt = None
+        skip_self = 0
+        if isinstance(f, ast.Name):
+            r = self.repo.resolve_name(fn, fn.module, f.id)
+            if r.__class__.__name__ == "FunctionInfo":
+                tgt = r
+                skip_self = 1 if (r.cls is not None and r.params[:1] == ["self"]) else 0
+        elif isinstance(f, ast.Attribute) and isinstance(f.value, ast.Name) and f.value.id in ("self", "cls") and fn.cls is not None:
+            tgt = self.repo.find_method(fn.cls, f.attr)
+            skip_self = 1
+            if tgt is not None and any(isinstance(d, ast.Name) and d.id == "staticmethod" for d in tgt.node.decorator_list):
+                skip_self = 0
+        if tgt is None or tgt.fq in stack:
+            return
+        params = tgt.params[skip_self:]
+        new = {}
+        for i, a in enumerate(call.args):
+            if isinstance(a, ast.Starred) or i >= len(params):
+                break
+            v = _const_of(a, env)
+            if v is not _UNKNOWN:
+                new[params[i]] = v
+        for kw in call.keywords:
+            if kw.arg is not None:
+                v = _const_of(kw.value, env)
+                if v is not _UNKNOWN:
+                    new[kw.arg] = v
+        # defaults of parameters not passed
+        a = tgt.node.args
+        pos = a.posonlyargs + a.args
+        for p_, d in list(zip(pos[len(pos) - len(a.defaults):], a.defaults)) + [(p_, d) for p_, d in zip(a.kwonlyargs, a.kw_defaults) if d is not None]:
+            passed = p_.arg in new or any(kw.arg == p_.arg for kw in call.keywords) or (p_ in pos and pos.index(p_) - skip_self < len(call.args))
+            if not passed and isinstance(d, ast.Constant):
+                new[p_.arg] = d.value
+        hands_side = any(v in ("in", "out") for v in new.values())
+        if not (hands_side or tgt.name.startswith("_")):
+            return
+        self.run(tgt, new, depth + 1, stack)
 
 
 def check_sides(repo, res):
@@ -728,31 +947,19 @@ def check_sides(repo, res):
         want = next((side for word, side in SIDE_OF_NAME if fn.name == word or fn.name.startswith(word + "_") or fn.name == word + "s"), None)
         if want is None:
             continue
-        par = {}
-        for p in ast.walk(fn.node):
-            for ch in ast.iter_child_nodes(p):
-                par[ch] = p
-        sides = [x for x in ast.walk(fn.node) if isinstance(x, ast.Subscript) and isinstance(x.slice, ast.Constant) and x.slice.value in ("in", "out") and any(isinstance(y, ast.Attribute) and y.attr in ("_node", "_edge", "_id_dict", "_bi_id_dict") for y in ast.walk(x.value))]
-        if not sides:
+        sr = _SideReads(repo)
+        sr.run(fn, {})
+        if not sr.reads:
+            if sr.unresolved:
+                x, g = sr.unresolved[0]
+                raise AnalysisError(f"{fn.fq}: the side read `{unparse(x, 50)}` in {g.qualname} is selected by a value that is not a literal at the call (extractor does not recognise the code)")
             # a thin alias (sources -> tail): nothing to read here
             continue
         n += 1
-        bad = []
-        for x in sides:
-            # neutral: both sides of the same entry combined in one expression (X["in"].union(X["out"]))
-            p = x
-            neutral = False
-            for _ in range(4):
-                p = par.get(p)
-                if p is None:
-                    break
-                others = [y for y in ast.walk(p) if isinstance(y, ast.Subscript) and y is not x and isinstance(y.slice, ast.Constant) and y.slice.value in ("in", "out") and y.slice.value != x.slice.value and ast.dump(y.value) == ast.dump(x.value)]
-                if others and isinstance(p, ast.Call):
-                    neutral = True
-                    break
-            if not neutral and x.slice.value != want:
-                bad.append(x)
-        res.inst("V-SIDE", f"{fn.fq}: reads the {want!r} side ({len(sides)} side accesses)", not bad)
-        for x in bad[:1]:
-            res.add(mk_finding(PROP, "V-SIDE", fn, x, f"{fn.qualname} is the {'in' if want == 'in' and 'degree' in fn.name else want}-side statistic but reads `{unparse(x, 50)}`; it reports the other side of the directed incidence (in/out degree, tail/head)", role=fn.name))
+        bad = [(x, g) for sv, x, g, neutral in sr.reads if not neutral and sv != want]
+        via = sorted(set(sr.analysed) - {fn.fq})
+        res.inst("V-SIDE", f"{fn.fq}: reads the {want!r} side ({len(sr.reads)} side accesses" + (f", through {', '.join(v.split('.')[-1] for v in via)}" if via else "") + ")", not bad)
+        for x, g in bad[:1]:
+            where = "" if g is fn else f" (in {g.qualname}, with the side literal {fn.qualname} passes)"
+            res.add(mk_finding(PROP, "V-SIDE", fn, x if g is fn else fn.node, f"{fn.qualname} is the {'in' if want == 'in' and 'degree' in fn.name else want}-side statistic but reads `{unparse(x, 50)}`{where}; it reports the other side of the directed incidence (in/out degree, tail/head)", role=fn.name))
     res.floor("one-sided directed statistics / accessors", n, 3)
